@@ -303,13 +303,8 @@ def runSched (s : St) (now : Nat) (ths : List Thread) : List Nat → St × List 
   | i :: r => let (s1, t1) := stepThread s now ths i; runSched s1 now t1 r
 
 /-- reference small step: the history grows when an admitted thread *records* -/
-structure RThread where
-  res : Nat
-  b : Nat
-  st : Option (Option Nat × Bool) := none
-
 def refStepThread (srcOf : RuleInfo → Nat) (cs : List RuleInfo) (H : List Arrival) (now : Nat)
-    (ths : List RThread) (i : Nat) : List Arrival × List RThread :=
+    (ths : List Thread) (i : Nat) : List Arrival × List Thread :=
   match ths[i]? with
   | none => (H, ths)
   | some th =>
@@ -320,7 +315,7 @@ def refStepThread (srcOf : RuleInfo → Nat) (cs : List RuleInfo) (H : List Arri
     | some (_, true) => (H, ths)
 
 def refRunSched (srcOf : RuleInfo → Nat) (cs : List RuleInfo) (H : List Arrival) (now : Nat)
-    (ths : List RThread) : List Nat → List Arrival × List RThread
+    (ths : List Thread) : List Nat → List Arrival × List Thread
   | [] => (H, ths)
   | i :: r => let (H1, t1) := refStepThread srcOf cs H now ths i; refRunSched srcOf cs H1 now t1 r
 
